@@ -211,14 +211,12 @@ def i_CDQ(i, fmap):
     fmap[rip] = fmap[rip] + i.length
     x = fmap(eax).signextend(64)
     fmap[rdx] = x[32:64].zeroextend(64)
-    fmap[rax] = x[0:32].zeroextend(64)
 
 
 def i_CQO(i, fmap):
     fmap[rip] = fmap[rip] + i.length
-    x = fmap(eax).signextend(128)
+    x = fmap(rax).signextend(128)
     fmap[rdx] = x[64:128]
-    fmap[rax] = x[0:64]
 
 
 def i_PUSHFQ(i, fmap):
@@ -820,7 +818,15 @@ def i_CMPXCHG(i, fmap):
     dst, src = i.operands
     acc = {8: al, 16: ax, 32: eax, 64: rax}[dst.size]
     t = fmap(acc == dst)
+    # flags are those of CMP acc,dst
+    op1, op2 = fmap(acc), fmap(dst)
+    x, carry, overflow = SubWithBorrow(op1, op2)
+    fmap[af] = halfborrow(op1, op2)
     fmap[zf] = tst(t, bit1, bit0)
+    fmap[sf] = x.bit(-1)
+    fmap[cf] = carry
+    fmap[of] = overflow
+    fmap[pf] = parity8(x[0:8])
     if dst.size == 32 and dst._is_reg:
         x = fmap(src).zeroextend(64)
         v = fmap(dst).zeroextend(64)
@@ -1006,14 +1012,15 @@ def i_ROL(i, fmap):
     mask = 0x3F if W == 1 else 0x1F
     op1 = i.operands[0]
     size = op1.size
-    count = fmap(i.operands[1] & mask) % size
+    mcount = fmap(i.operands[1] & mask)
+    count = mcount % size
     a = fmap(op1)
     x = ROL(a, count)
     if count._is_cst:
-        if count.value == 0:
+        if mcount.value == 0:
             return
         fmap[cf] = x.bit(0)
-        if count.value == 1:
+        if mcount.value == 1:
             fmap[of] = x.bit(-1) ^ fmap(cf)
         else:
             fmap[of] = top(1)
@@ -1033,14 +1040,15 @@ def i_ROR(i, fmap):
     mask = 0x3F if W == 1 else 0x1F
     op1 = i.operands[0]
     size = op1.size
-    count = fmap(i.operands[1] & mask) % size
+    mcount = fmap(i.operands[1] & mask)
+    count = mcount % size
     a = fmap(op1)
     x = ROR(a, count)
     if count._is_cst:
-        if count.value == 0:
+        if mcount.value == 0:
             return
         fmap[cf] = x.bit(-1)
-        if count.value == 1:
+        if mcount.value == 1:
             fmap[of] = x.bit(-1) ^ x.bit(-2)
         else:
             fmap[of] = top(1)
